@@ -20,6 +20,11 @@ def sh(cmd, cwd=None, env=None, timeout=3600):
 
 
 def main(a):
+    fast = False
+    old = {}
+    if a[0] == '--fast':
+        fast = True
+        a = a[1:]
     if a[0] == '--recheck':
         # re-run checks against a change already stored under seeded/<id>/
         sid = a[1]
@@ -67,9 +72,12 @@ def main(a):
             meta['applies'] = False
             return 2
         meta['applies'] = True
-        rc, o = sh('/venv/bin/python -m pytest -q -p no:cacheprovider --timeout=900 2>&1 | tail -3', cwd=wt)
-        meta['tests'] = o.strip().splitlines()[-1] if o.strip() else ''
-        meta['tests_pass'] = '385 passed' in o
+        if fast and old.get('tests_pass'):
+            meta['tests'], meta['tests_pass'] = old.get('tests', ''), True      # confirmed when the change was stored
+        else:
+            rc, o = sh('/venv/bin/python -m pytest -q -p no:cacheprovider --timeout=900 2>&1 | tail -3', cwd=wt)
+            meta['tests'] = o.strip().splitlines()[-1] if o.strip() else ''
+            meta['tests_pass'] = '385 passed' in o
         rc1, o1 = sh('/venv/bin/python %s' % demo_run, cwd=wt, env=env)
         meta['demo_with_change_exit'] = rc1
         meta['demo_output'] = o1.strip()[-600:]
@@ -99,12 +107,12 @@ def main(a):
         # merge with existing meta (keep earlier detection records)
         mp = os.path.join(d, 'meta.json')
         if os.path.exists(mp):
-            old = json.load(open(mp))
-            oc = old.get('checks', {})
+            old2 = json.load(open(mp))
+            oc = old2.get('checks', {})
             oc.update(det)
             meta['checks'] = oc
             meta['detected_by'] = sorted(c for c, dd in oc.items() if dd['exit'] == 1)
-            meta['ran'] = old.get('ran', []) + meta['ran']
+            meta['ran'] = (old2.get('ran', []) + meta['ran'])[-12:]
         json.dump(meta, open(mp, 'w'), indent=1)
         print(sid, 'confirmed=%s tests=%s demo clean/with=%s/%s detected_by=%s' % (
             meta['confirmed'], meta['tests_pass'], rc0, rc1, meta['detected_by']))
